@@ -819,6 +819,10 @@ fn run() {
                             shapes = vec![0];
                         }
                         let mut all_same = true;
+                        // a difference is EXPLAINED by the known finding (account events that reach the feed after
+                        // Shutdown are dropped) iff the market side is identical and the account events one run
+                        // processed are a prefix of those the other processed; anything else is printed as `X`
+                        let mut explained = true;
                         let mut last = None;
                         for shape in shapes {
                             let alone = run_concurrent(s, &[b], shape);
@@ -828,6 +832,13 @@ fn run() {
                             let same_sum = alone.summaries[0] == conc.summaries[b]
                                 && a.positions == sink.positions
                                 && a.balances == sink.balances;
+                            if !(same_seen && same_sum) {
+                                let (x, y) = (account_tags(&sink.log), account_tags(&a.log));
+                                let prefix = x.len().min(y.len());
+                                if !same_seen || x[..prefix] != y[..prefix] {
+                                    explained = false;
+                                }
+                            }
                             if !(same_seen && same_sum) && all_same {
                                 all_same = false;
                                 last = Some(format!(
@@ -840,7 +851,7 @@ fn run() {
                                 lines.push(format!("# alone({shape}) b={b} feed={:?} pos={:?} bal={:?} sum={}", a.log, a.positions, a.balances, alone.summaries[0]));
                             }
                         }
-                        lines.push(format!("alone {b} {}", all_same as u8));
+                        lines.push(format!("alone {b} {}", if all_same { "1" } else if explained { "0" } else { "X" }));
                         if let Some(note) = last {
                             lines.push(note);
                         }
